@@ -1139,8 +1139,12 @@ def l9_check(case, res):
         if crash_at is None:
             outcome, exc = prepare(root, ds, no_http, False)
         else:
-            c = StepCounter(root, crash_at=crash_at, torn="half", on_crash=lambda: None)
+            fired = []
+            c = StepCounter(root, crash_at=crash_at, torn="half", on_crash=lambda: fired.append(1))
             outcome, exc = prepare(root, ds, no_http, False, counter=c)
+            if fired:
+                # the process was killed: what the unwinding exception turns into in the live process (zip extraction wraps it) is irrelevant
+                outcome, exc = "crashed", None
         want_url = f"corpora-bucket/some/prefix/{ds.document_archive or ds.document_file}"
         if isinstance(exc, AssertionError):
             v = ("bucket-url-fetched-over-http", str(exc))
